@@ -189,6 +189,8 @@ def main():
     C.load_dyce()
     R = Runner(prop, tier, seed)
     mod = R.mod
+    global CASE_TIMEOUT
+    CASE_TIMEOUT = float(os.environ.get("VERIF_CASE_TIMEOUT", getattr(mod, "CASE_TIMEOUT", {}).get(tier, CASE_TIMEOUT)))
 
     if a.replay:
         return replay(R, a.replay)
@@ -200,13 +202,16 @@ def main():
                 os.remove(os.path.join(C.REPLAYS, fn))
 
     # 1. proof obligations
-    aud = C.audit(prop)
+    aud = C.audit(prop, tier)
     proof_broken = bool(aud["failed"])
 
     # 2./3. corpus + seeded generation
     rnd = random.Random("%s/%s/%d" % (prop, tier, seed))
     corpus = load_corpus(prop)
     scale = a.budget if a.budget else 1.0
+    changed_files = C.fingerprints_changed(prop)
+    if changed_files and tier == "quick" and not a.budget:
+        scale = 4.0  # the anchored source differs from the verified tree: look harder (never an alarm by itself)
     gen_tier = tier
     if proof_broken and tier == "quick":
         gen_tier = "thorough"  # §4.4: a broken obligation triggers the deep search
@@ -378,6 +383,8 @@ def main():
             discharged=len(aud["discharged"]),
             theorems=aud["obligations"],
             undischarged=aud["failed"],
+            fingerprint_changed=changed_files,
+            leanchecker=aud.get("leanchecker", "not run (thorough tier only)"),
             checker_cmd=aud["cmd"],
             trusted_base=getattr(mod, "TRUSTED", [])
             + [
